@@ -11,11 +11,15 @@ namespace C14
 open Router
 
 /-- closing connection `id` (DISCONNECT packet, Disconnect event, protocol violation, bad ack,
-    router-initiated close) leaves every other connection's state exactly as it was: its
-    subscriptions, tracker, ack log, inflight window -/
+    router-initiated close) removes no other connection and leaves every other connection's state
+    as it was — its subscriptions, ack log, inflight window —, except possibly for its tracker: when
+    the closed client held the turn of a shared group, the parked requests of that group's log are
+    handed back to their trackers (`wake_parked`: `track` / `reschedule`) -/
 theorem close_touches_only_that_connection (s s' : RState) (id j : Nat) (r : Option String)
     (h : handleDisconnection s id r = .ok s') (hj : j ≠ id) :
-    getConn s' j = getConn s j := handleDisconnection_other h hj
+    (getConn s j = none → getConn s' j = none) ∧
+    ∀ c, getConn s j = some c → ∃ t, getConn s' j = some { c with tracker := t } :=
+  handleDisconnection_other h hj
 
 /-- an event on behalf of connection `id` — any event (DeviceData with any batch of packets,
     protocol violations and bad acks included, Ready, Disconnect, PublishWill, Shadow, ticks), in
@@ -45,11 +49,12 @@ theorem push_drain_touch_nobody {s s' : RState} {op : Op} {out : Out} (h : step 
   step_push_drain_frame h hop j
 
 /-- a CONNECT, in a reachable state, removes at most the connection registered under the same
-    client id (session takeover); every other live connection is left exactly as it was -/
+    client id (session takeover); every other live connection stays, unchanged except possibly for
+    its tracker (closing the taken-over connection may wake parked members of its shared groups) -/
 theorem connect_removes_only_same_client_id {cfg : Config} {s s' : RState} {o : List Choice}
     {spec : ConnectSpec} {out : Out} {j : Nat} {c : Conn} (hr : Reachable cfg s)
     (h : step { s with oracle := o } (.connect spec) = .ok (s', out)) (hc : getConn s j = some c)
-    (hj : alookup spec.clientId s.connectionMap ≠ some j) : getConn s' j = some c := by
+    (hj : alookup spec.clientId s.connectionMap ≠ some j) : ∃ t, getConn s' j = some { c with tracker := t } := by
   have ha : AdmInv { s with oracle := o } := (AdmInv.reachable hr).oracle o
   cases step_cases h with
   | connect _ h' => exact handleNewConnection_frame ha h' hc hj
@@ -66,7 +71,8 @@ theorem step_removes_only {cfg : Config} {s s' : RState} {o : List Choice} {op :
     by_cases hj : alookup spec.clientId s.connectionMap = some j
     · obtain ⟨c', hc', e⟩ := (AdmInv.reachable hr).map.1 _ _ hj
       rw [hc] at hc'; simp only [Option.some.injEq] at hc'; subst hc'; exact e.symm
-    · rw [connect_removes_only_same_client_id hr h hc hj] at hgone; simp at hgone
+    · obtain ⟨t, ht⟩ := connect_removes_only_same_client_id hr h hc hj
+      rw [ht] at hgone; simp at hgone
   | push l p =>
     rw [push_drain_touch_nobody h (.inl ⟨l, p, rfl⟩) j] at hgone
     rw [show getConn { s with oracle := o } j = getConn s j from rfl, hc] at hgone; simp at hgone
@@ -87,6 +93,6 @@ example : ∃ s s', Reachable ⟨2, 1024, 2, 10, .roundRobin⟩ s ∧ step s (.e
     (getConn s 0).isSome = true ∧ (getConn s' 0).isSome = false ∧ (getConn s' 1).isSome = true :=
   ⟨_, _, ⟨[(.connect { link := 0, clientId := "a", clean := true, dynamicFilters := false, aliasMax := 0, will := none }, []),
            (.connect { link := 1, clientId := "b", clean := true, dynamicFilters := false, aliasMax := 0, will := none }, [])], rfl⟩,
-    rfl, rfl, rfl, rfl⟩
+    (step_eqX _ _).trans rfl, rfl, rfl, rfl⟩
 
 end C14
